@@ -36,10 +36,17 @@ import (
 
 const filePath = "/v/f.go"
 
-var versions = []*gast.FileVersion{
-	{Path: filePath, ModTime: time.Unix(1000, 0), Hash: "h0"},
-	{Path: filePath, ModTime: time.Unix(2000, 0), Hash: "h1"},
+// versionSets: how two versions of the file differ - in time and content hash, in the hash only (an edit within the
+// clock's resolution), in the time only (a touch). Any difference makes the second a newer version.
+var versionSets = [][]*gast.FileVersion{
+	{{Path: filePath, ModTime: time.Unix(1000, 0), Hash: "h0"}, {Path: filePath, ModTime: time.Unix(2000, 0), Hash: "h1"}},
+	{{Path: filePath, ModTime: time.Unix(1000, 0), Hash: "h0"}, {Path: filePath, ModTime: time.Unix(1000, 0), Hash: "h1"}},
+	{{Path: filePath, ModTime: time.Unix(1000, 0), Hash: "h0"}, {Path: filePath, ModTime: time.Unix(2000, 0), Hash: "h0"}},
 }
+var versionSetNames = []string{"time and hash differ", "only the hash differs", "only the time differs"}
+
+var versions = versionSets[0]
+var currentVSet = 0
 
 type universe struct {
 	nk    int
@@ -845,7 +852,7 @@ func (x *explorer) step(hist []hstep, oi int) []succ {
 			f := x.features(opsOf(full), mm)
 			f["dependents-order"] = fmt.Sprint(len(prefix) > 0)
 			x.run.Report(core.Violation{Oracle: mm.oracle, Features: f, What: mm.what,
-				Case: map[string]any{"keys": x.u.nk, "versions": x.u.nv, "history": x.histStrings(full), "steps": full}})
+				Case: map[string]any{"keys": x.u.nk, "versions": x.u.nv, "version_set": currentVSet, "history": x.histStrings(full), "steps": full}})
 		}
 		if err != nil {
 			report(mismatch{"op-error", fmt.Sprintf("%s failed: %v", x.u.opString(x.ops[oi]), err)})
@@ -962,11 +969,12 @@ func Main(tier, replay string) {
 	}
 	type cfg struct {
 		nk, nv, depth int
+		vset          int
 	}
-	cfgs := []cfg{{2, 2, 3}}
+	cfgs := []cfg{{2, 2, 3, 0}, {2, 2, 2, 1}, {2, 2, 2, 2}}
 	deadline := core.Deadline(tier, 5*time.Minute, 60*time.Minute)
 	if tier == "thorough" {
-		cfgs = []cfg{{3, 2, 3}, {2, 2, 4}, {3, 1, 5}}
+		cfgs = []cfg{{3, 2, 3, 0}, {2, 2, 4, 0}, {3, 1, 5, 0}, {2, 2, 3, 1}, {2, 2, 3, 2}}
 	}
 	if e := os.Getenv("VERIF_C17_CFG"); e != "" { // e.g. "2:2:4,3:1:5" (keys:versions:depth) for experiments
 		cfgs = nil
@@ -978,6 +986,7 @@ func Main(tier, replay string) {
 	}
 	var bounds []string
 	for _, c := range cfgs {
+		versions, currentVSet = versionSets[c.vset], c.vset
 		u := newUniverse(c.nk, c.nv)
 		x := &explorer{u: u, ops: u.allOps(), run: run}
 		done, states := x.bfs(c.depth, deadline, 3_000_000)
@@ -987,7 +996,7 @@ func Main(tier, replay string) {
 		x.outc.Range(func(k, v any) bool { run.Outcome(k.(string), v.(*atomic.Int64).Load()); return true })
 		run.Add("remove_orders_explored", x.orders.Load())
 		run.Add("transitions_with_order_choice", x.multiOrd.Load())
-		bounds = append(bounds, fmt.Sprintf("%d AST keys x %d file versions + builtins int,error; %d operations; all histories to depth %d (requested %d), de-duplicated on the full private state; all dependents orders of every RemoveNode", c.nk, c.nv, len(x.ops), done, c.depth))
+		bounds = append(bounds, fmt.Sprintf("%d AST keys x %d file versions ("+versionSetNames[c.vset]+") + builtins int,error; %d operations; all histories to depth %d (requested %d), de-duplicated on the full private state; all dependents orders of every RemoveNode", c.nk, c.nv, len(x.ops), done, c.depth))
 		run.Sample(map[string]any{"keys": c.nk, "versions": c.nv, "history": x.histStrings([]hstep{{Op: 2}, {Op: len(x.ops) - 2}, {Op: 30 % len(x.ops)}})})
 	}
 	run.Bound = strings.Join(bounds, " | ")
@@ -1003,6 +1012,9 @@ func replayCase(run *core.Run, path string) {
 	nv := 2
 	if f, ok := m["versions"].(float64); ok {
 		nv = int(f)
+	}
+	if f, ok := m["version_set"].(float64); ok && int(f) < len(versionSets) {
+		versions, currentVSet = versionSets[int(f)], int(f)
 	}
 	u := newUniverse(nk, nv)
 	x := &explorer{u: u, ops: u.allOps(), run: run}
